@@ -258,49 +258,45 @@ def rule_codes(facts, rep):
 
 
 def rule_extended(facts, rep):
+    """The extended-colour introducers 38 / 48 / 58, by evaluation: `;5;n` sets that slot to palette index n and `;2;r;g;b` to the RGB
+    colour with the components in that order, each consuming exactly its arguments (the code that follows is applied); a form that
+    is cut short or has another selector stops the list there (what was parsed before it stands, nothing after it is applied)."""
     b = facts.body("anstyle_ls", F)
-    m = code_match(b)
-    for a in m["arms"]:
-        ints = hir.pat_ints(a["pat"])
-        body = hir.simp(a["body"])
-        if ints is None or body.get("k") != "match":
-            continue
-        code = next(iter(ints))
-        slot = {38: "fg", 48: "bg", 58: "underline"}.get(code)
-        sc = hir.simp(body["scrut"])
-        pops = sc.get("k") == "tuple" and len(sc["es"]) == 2 and all(is_pop(x, queue_name(b)) for x in sc["es"])
-        rep.check(slot is not None and pops, "extended", b["path"], f"{code}:looks-ahead-two", "pops (mode, first value) from the queue", loc(b, a))
-        seen = {}
-        for arm in body["arms"]:
-            p = arm["pat"]
-            if p.get("k") != "ptuple":
-                # `_ => break`
-                ok = hir.simp(hir.stmts_of(arm["body"])[-1]).get("k") == "break"
-                rep.check(ok, "extended", b["path"], f"{code}:malformed→stop", "", loc(b, arm))
-                continue
-            mode_p, val_p = p["pats"]
-            mode = hir.pat_ints(mode_p["pats"][0]) if mode_p.get("k") == "pts" else None
-            val = val_p["pats"][0].get("name") if val_p.get("k") == "pts" else None
-            if mode == {5}:
-                ops = arm_update(arm["body"])
-                rep.check(ops == [(slot, ("ansi256", val))], "extended", b["path"], f"{code};5;n→{slot}=Ansi256(n)", f"{ops}", loc(b, arm))
-                seen[5] = True
-            elif mode == {2}:
-                inner = hir.simp(arm["body"])
-                ok = False
-                if inner.get("k") == "match":
-                    isc = hir.simp(inner["scrut"])
-                    ok = isc.get("k") == "tuple" and len(isc["es"]) == 2 and all(is_pop(x, queue_name(b)) for x in isc["es"])
-                    for ia in inner["arms"]:
-                        ip = ia["pat"]
-                        if ip.get("k") == "ptuple" and all(q.get("k") == "pts" for q in ip["pats"]):
-                            g, bl = [q["pats"][0].get("name") for q in ip["pats"]]
-                            ops = arm_update(ia["body"])
-                            rep.check(ok and ops == [(slot, ("rgb", (val, g, bl)))], "extended", b["path"], f"{code};2;r;g;b→{slot}=Rgb(r,g,b)",
-                                      f"components must be used in pop order (r, g, b): {ops}", loc(b, ia))
-                            seen[2] = True
-            rep.count()
-        rep.check(seen == {5: True, 2: True}, "extended", b["path"], f"{code}:both-forms", f"{seen}", loc(b, a))
+    bit = {n_: v for n_, v, _ in ac.effect_consts(facts)}
+
+    def run(text):
+        try:
+            return observed(facts, text)
+        except Unrecognised as ex:
+            return ("not-evaluable", str(ex)[:80])
+    for code, slot in ((38, 0), (48, 1), (58, 2)):
+        def st(colour=None, eff=0):
+            v = [None, None, None, eff]
+            v[slot] = colour
+            return tuple(v)
+        checks = {
+            f"{code};5;n→{('fg', 'bg', 'underline')[slot]}=Ansi256(n)":
+                [(f"{code};5;{n}", st(("idx", n))) for n in (0, 1, 15, 16, 128, 255)] + [(f"1;{code};5;7;3", st(("idx", 7), bit["BOLD"] | bit["ITALIC"]))],
+            f"{code};2;r;g;b→{('fg', 'bg', 'underline')[slot]}=Rgb(r,g,b)":
+                [(f"{code};2;1;2;3", st(("rgb", 1, 2, 3))), (f"{code};2;255;0;128", st(("rgb", 255, 0, 128))), (f"{code};2;0;255;9;4", st(("rgb", 0, 255, 9), bit["UNDERLINE"])),
+                 (f"1;{code};2;10;20;30;{code};5;9", st(("idx", 9), bit["BOLD"]))],
+            f"{code}:looks-ahead-two":
+                [(f"{code};5;4;4", st(("idx", 4), bit["UNDERLINE"])), (f"{code};2;4;4;4;4", st(("rgb", 4, 4, 4), bit["UNDERLINE"]))],
+            f"{code}:malformed→stop":
+                [(f"1;{code}", st(None, bit["BOLD"])), (f"1;{code};5", st(None, bit["BOLD"])), (f"1;{code};2;1;2", st(None, bit["BOLD"])),
+                 (f"1;{code};2;1", st(None, bit["BOLD"])), (f"1;{code};2", st(None, bit["BOLD"])), (f"1;{code};7;9;4", st(None, bit["BOLD"])),
+                 (f"1;{code};0;9;4", st(None, bit["BOLD"]))],
+        }
+        seen = {5: True, 2: True}
+        for key, cases in checks.items():
+            bad = [f"parse({t!r}) = {run(t)}, expected {w}" for t, w in cases if run(t) != w]
+            if bad and ";5;" in key:
+                seen[5] = False
+            if bad and ";2;" in key:
+                seen[2] = False
+            rep.check(not bad, "extended", b["path"], key, f"{len(cases)} descriptions evaluated {bad[:2]}", loc(b))
+            rep.count(len(cases))
+        rep.check(seen == {5: True, 2: True}, "extended", b["path"], f"{code}:both-forms", f"{seen}", loc(b))
 
 
 def rule_wiring(facts, rep):
